@@ -6,7 +6,7 @@ from ..analysis import (backslice, comparisons, branch_of, dominated_region, agg
                         forward_locals, upvar_operand, switch_on_result_of)
 from ..callgraph import CallGraph
 from ..facts import op_local, op_const, place_fields
-from .common import stdin_paths_body, err_handling
+from .common import stdin_paths_body, err_handling, rehash_core, rehash_core_path, rehash_rx
 
 DOC = {
     'explanation': 'Schedules are out of static reach. Decided necessary conditions: the result of group_files passes a stable total ordering of groups and the per-group path '
@@ -149,7 +149,7 @@ def r1(ctx):
 def r2(ctx):
     rule = 'C13.R2'
     lib = ctx.lib
-    rh = ctx.need_body(rule, 'group::rehash')
+    rh = ctx.need_body(rule, rehash_core_path(lib))
     if rh is None:
         return
     # the scope body: closure of rehash that calls Receiver::recv
@@ -488,6 +488,17 @@ def r11(ctx):
               'the reader opens the named pipe and blocks until somebody opens THAT pipe for writing; the rescue for a child that never does is an open of the pipe\'s PATH after the child has exited - '
               'a program that replaces $OUT instead of writing to it (unlink + create, temporary file + rename: install, cp --remove-destination, mv, every "atomic" writer) leaves a regular file '
               'there, the rescue opens that file, and the hashing task waits for ever: `group --transform "install -m 644 $IN $OUT"` never ends')
+    # the reading end is opened while that write end is certainly still there: before the keeper is handed to the thread, which closes it as soon as the
+    # child has exited - possibly before this thread gets that far (the opens after a wait() for the child read a regular file, not the pipe)
+    ts = b.calls(r'^std::thread::spawn$|thread::Builder::spawn$')
+    waits = b.calls(r'Child::wait$')
+    pipe_rd = [r for r in rd if not any(b.dominates(w.bb, r.bb) for w in waits)]
+    late = [r for r in pipe_rd if any(r.bb in b.reachable(t.bb) for t in ts)]
+    ctx.check(bool(pipe_rd) and not late, rule, b.path + '|reader-opened-while-the-keeper-is-held', (late[0].where() if late else (pipe_rd[0].where() if pipe_rd else b.where())),
+              'the reading end of the pipe is opened before the write end is handed to the thread that closes it',
+              'the reading end of the pipe is opened after the thread that holds the only certain write end has been started: when the child and that thread are faster (small file, quick program, '
+              'busy machine) the write end is closed already, the pipe has no writer and open(O_RDONLY) blocks for ever - `group --threads 64 --transform "dd if=$IN of=$OUT"` over 600 small files '
+              'on two cores hangs in most runs, with no message and no report')
     # and a pipe that was replaced is reported, not hashed as empty output
     ht = lib.body("hasher::FileHasher::<'_>::hash_transformed")
     chk = ht.calls(r'Execution::check_output$') if ht is not None else []
